@@ -102,6 +102,7 @@ type interpreter struct {
 	steps              int64
 	inHarness          bool
 	locIDs             map[*value]int
+	rndNames           int
 	sliceData          map[*value][]value
 	files              map[*value]int
 	fileData           map[int][][]value
